@@ -31,3 +31,9 @@ Proof.
   split; [exact H|]. intros ctx chk c e tr. apply rejected_no_effect. exact H.
 Qed.
 Print Assumptions C12_cleanup_true_only_removal_precedes_checks.
+
+(* pipeline(output, **kwargs): every check of Pipeline.run (incl. the validation of the keywords) precedes the first
+   invocation of user code *)
+Theorem C12_run_checks_before_first_user_call : no_effect_before_checks steps_run = true.
+Proof. vm_compute. reflexivity. Qed.
+Print Assumptions C12_run_checks_before_first_user_call.
